@@ -197,4 +197,70 @@ theorem authLoop_custom_tokens (rs : List Round) (sf : Bool) (fs : List SFrame) 
             List.map_cons]
           exact List.prefix_cons_inj r.resp |>.mpr (ih rs)
 
+/-- the requests passed to `Challenge`, in order -/
+def challengeReqs (l : List Call) : List (List UInt8) :=
+  l.filterMap (fun x => match x with | .challenge r => some r | _ => none)
+
+@[simp] theorem challengeReqs_nil : challengeReqs [] = [] := rfl
+@[simp] theorem challengeReqs_chal (r : List UInt8) (l : List Call) : challengeReqs (.challenge r :: l) = r :: challengeReqs l := rfl
+@[simp] theorem challengeReqs_succ (d : List UInt8) (l : List Call) : challengeReqs (.success d :: l) = challengeReqs l := rfl
+
+/-- payloads of the AUTH_CHALLENGE frames the server sends in a row -/
+def leadingChallenges : List SFrame → List (List UInt8)
+  | .authChallenge d :: rest => d :: leadingChallenges rest
+  | _ => []
+
+/-- `Challenge` is called with what the server sent, in order -/
+theorem authLoop_reqs (chal : Option AuthImpl) (fs : List SFrame) :
+    challengeReqs (authLoop chal fs).calls <+: leadingChallenges fs := by
+  induction fs generalizing chal with
+  | nil => exact List.nil_prefix
+  | cons f fs ih =>
+    cases f <;> try exact List.nil_prefix
+    · rename_i d
+      rcases chal with _ | a
+      · exact List.nil_prefix
+      · simp only [authLoop, leadingChallenges]
+        cases a.challenge d with
+        | error e => simp
+        | ok r =>
+          obtain ⟨resp, next⟩ := r
+          simpa [List.prefix_cons_inj] using ih next
+    · rcases chal with _ | a
+      · exact List.nil_prefix
+      · simp [authLoop, leadingChallenges]
+
+/-- with an authenticator whose `Success` fails, `ready` is reached only when `Success` was never called
+    (the chain had ended with a nil challenger) -/
+theorem authLoop_success_fails (chal : Option AuthImpl) (fs : List SFrame)
+    (hc : ∀ a, chal = some a → ∃ rs, a = .custom rs true)
+    (h : (authLoop chal fs).outcome = .ready) : ∀ d, Call.success d ∉ (authLoop chal fs).calls := by
+  induction fs generalizing chal with
+  | nil => cases h
+  | cons f fs ih =>
+    cases f <;> try (cases h)
+    · rename_i d
+      rcases chal with _ | a
+      · cases h
+      · obtain ⟨rs, rfl⟩ := hc a rfl
+        rcases rs with _ | ⟨r, rs⟩
+        · simp [authLoop, AuthImpl.challenge] at h
+        · simp only [authLoop, AuthImpl.challenge] at h ⊢
+          by_cases hf : r.fail = true
+          · simp [hf] at h
+          · simp only [hf, Bool.false_eq_true, if_false, Trace.pre_outcome] at h
+            simp only [hf, Bool.false_eq_true, if_false, Trace.pre_calls]
+            intro d' hm
+            simp only [List.cons_append, List.nil_append, List.mem_cons, reduceCtorEq, false_or] at hm
+            refine ih _ ?_ h d' hm
+            intro a ha
+            by_cases hl : r.last = true
+            · simp [hl] at ha
+            · simp only [hl, Bool.false_eq_true, if_false, Option.some.injEq] at ha
+              exact ⟨rs, ha.symm⟩
+    · rcases chal with _ | a
+      · intro d; simp [authLoop]
+      · obtain ⟨rs, rfl⟩ := hc a rfl
+        simp [authLoop, AuthImpl.success] at h
+
 end TlsAuth
